@@ -768,13 +768,24 @@ impl Replayer {
                 let g = self.w.parties[&p].group.as_ref().unwrap().clone();
                 let old_gid = g.group_id().to_vec();
                 let n = self.w.succ.len() + 1;
+                // an insider deviating from the announcement (hooks verif_tweak_announcement / verif_branch_with_extensions)
+                let tweak = args.get("tweak").and_then(|t| t.as_str()).unwrap_or("none").to_string();
+                let tw_gid = if tweak == "gid" { Some(b"verif-group-elsewhere".to_vec()) } else { None };
+                let tw_ext = if tweak == "ext" { Some(gce_list(777)) } else { None };
                 let r = match kind.as_str() {
-                    "reinit" => g.get_reinit_client(None, None).and_then(|rc| rc.commit(kp_msgs, Default::default(), None)),
-                    _ => g.branch(format!("verif-branch-{n}").into_bytes(), kp_msgs, None),
+                    "reinit" => g.get_reinit_client(None, None).and_then(|mut rc| {
+                        if tweak != "none" { rc.verif_tweak_announcement(tw_gid.clone(), tw_ext.clone()); }
+                        rc.commit(kp_msgs, Default::default(), None)
+                    }),
+                    _ => match tw_ext.clone() {
+                        Some(x) => g.verif_branch_with_extensions(format!("verif-branch-{n}").into_bytes(), kp_msgs, x),
+                        None => g.branch(format!("verif-branch-{n}").into_bytes(), kp_msgs, None),
+                    },
                 };
                 match r {
                     Ok((ng, welcomes)) => {
-                        let exp_gid = if kind == "reinit" { b"verif-group-next".to_vec() } else { format!("verif-branch-{n}").into_bytes() };
+                        if tweak != "none" { self.w.bump(&format!("succ_tweaked:{kind}:{tweak}")); }
+                        let exp_gid = if tweak == "gid" { b"verif-group-elsewhere".to_vec() } else if kind == "reinit" { b"verif-group-next".to_vec() } else { format!("verif-branch-{n}").into_bytes() };
                         if ng.group_id() != exp_gid.as_slice() || ng.group_id() == old_gid.as_slice() {
                             viol!(self, ["C17"], "succ-gid", "{p}: successor ({kind}) has an unexpected group id");
                         }
@@ -782,7 +793,7 @@ impl Replayer {
                         let old_tree = self.w.parties[&p].group.as_ref().unwrap().export_tree().into_owned();
                         let blank_leaf = old_tree.nodes().iter().step_by(2).any(|n| n.is_none());
                         self.w.bump(&format!("succ_created:{kind}{}", if blank_leaf { ":old-tree-with-blank-leaf" } else { "" }));
-                        self.w.succ.push(SuccEntry { kind, group: ng, welcomes, joined: vec![] });
+                        self.w.succ.push(SuccEntry { kind, group: ng, welcomes, joined: vec![], tweak });
                         "ok".into()
                     }
                     Err(e) => classify(&e),
@@ -809,7 +820,7 @@ impl Replayer {
                     Ok((ng, welcomes)) => {
                         self.check_successor(&p, &ng, &out, None);
                         self.w.bump(&format!("succ_forged:{kind}"));
-                        self.w.succ.push(SuccEntry { kind, group: ng, welcomes, joined: vec![] });
+                        self.w.succ.push(SuccEntry { kind, group: ng, welcomes, joined: vec![], tweak: "none".into() });
                         "ok".into()
                     }
                     Err(e) => classify(&e),
@@ -845,7 +856,15 @@ impl Replayer {
                         }
                         "ok".into()
                     }
-                    Err(e) => classify(&e),
+                    Err(e) => {
+                        // a join through the matching API that only the comparison with the announcement stops
+                        let (tw, k) = (self.w.succ[si].tweak.clone(), self.w.succ[si].kind.clone());
+                        if tw != "none" && how == k {
+                            let name: String = format!("{e:?}").chars().take_while(|c| c.is_alphanumeric()).collect();
+                            self.w.bump(&format!("succ_tweak_rejected:{tw}:{name}"));
+                        }
+                        classify(&e)
+                    }
                 }
             }
             "Retire" => {
@@ -1479,6 +1498,14 @@ impl Replayer {
             }
             let t = rng.random_range(0..tb.len());
             variants.push((format!("tree: truncate to {t}"), wbytes.clone(), Some(tb[..t].to_vec())));
+        }
+        // C07: the authentic Welcome with a well-formed ratchet tree of another epoch (given out of band)
+        if tree_bytes.is_some() {
+            let others: Vec<(usize, Vec<u8>)> = self.w.commits.iter().enumerate().filter(|(i, o)| i + 1 != n && o.tree.is_some() && o.tree != tree_bytes).map(|(i, o)| (i + 1, o.tree.clone().unwrap())).collect();
+            for (i, t) in others.into_iter().rev().take(2) {
+                variants.push((format!("tree: the exported tree of commit {i}"), wbytes.clone(), Some(t)));
+                self.w.bump("tamper_other_epoch_tree");
+            }
         }
         for (what, wb, tb) in variants {
             let m = match MlsMessage::from_bytes(&wb) {
